@@ -155,14 +155,36 @@ Record sconn : Type := mkS {
   s_ctx : hctx;              (* boost::any context of the connection *)
   s_buf : list byte;         (* inputBuffer_ (its readable bytes) *)
   s_connected : bool;        (* state_ == kConnected: send() transmits *)
-  s_shutdowns : nat          (* shutdown() calls that took effect *)
+  s_shutdowns : nat;         (* shutdown() calls that took effect *)
+  s_dirty : bool;            (* request_.method_ != kInvalid left behind by a processRequestLine that failed AFTER
+                                setMethod succeeded (HttpServer does not reset() the context after a 400) *)
+  s_aborted : bool           (* assert(method_ == kInvalid) in HttpRequest::setMethod failed: the process is gone *)
 }.
 
 Inductive sevent : Type :=
 | SSend (d : list byte)      (* bytes that reached the socket *)
 | SDropped (d : list byte)   (* send() on a connection that is no longer kConnected: nothing is written *)
 | SRequest (r : request)     (* httpCallback_ was called with r *)
+| SAssert                    (* HttpRequest.h:55 assert(method_ == kInvalid) failed (builds with assertions: abort) *)
 | SOof.
+
+(* does processRequestLine reach request_.setMethod on the first complete line of [b]?
+   (space != end && request_.setMethod(start, space)) *)
+Definition reaches_setMethod (b : list byte) : bool :=
+  match find_crlf b with
+  | Some i => match find_byte SP (firstn i b) with Some _ => true | None => false end
+  | None => false
+  end.
+
+(* ... and does that setMethod succeed (so that a later failure leaves method_ set)? *)
+Definition sets_method (b : list byte) : bool :=
+  match find_crlf b with
+  | Some i => match find_byte SP (firstn i b) with
+              | Some j => negb (is_invalid (set_method (firstn j (firstn i b))))
+              | None => false
+              end
+  | None => false
+  end.
 
 Section Server.
   (* httpCallback_: fills the response that onRequest created with HttpResponse(close) *)
@@ -170,14 +192,23 @@ Section Server.
 
   Definition do_send (c : sconn) (d : list byte) : sevent := if s_connected c then SSend d else SDropped d.
   Definition do_shutdown (c : sconn) : sconn :=
-    if s_connected c then mkS (s_ctx c) (s_buf c) false (S (s_shutdowns c)) else c.
+    if s_connected c then mkS (s_ctx c) (s_buf c) false (S (s_shutdowns c)) (s_dirty c) (s_aborted c) else c.
+
+  Definition is_reqline_state (c : hctx) : bool :=
+    match h_state c with kExpectRequestLine => true | _ => false end.
 
   (* HttpServer::onMessage after TcpConnection appended the chunk *)
   Definition srv_onMessage (c : sconn) : list sevent * sconn :=
+    if s_aborted c then ([], c)
+    else if s_dirty c && is_reqline_state (s_ctx c) && reaches_setMethod (s_buf c) then
+      ([SAssert], mkS (s_ctx c) (s_buf c) (s_connected c) (s_shutdowns c) (s_dirty c) true)
+    else
     match parseRequest (S (length (s_buf c))) (s_ctx c) (s_buf c) with
     | PRFuel => ([SOof], c)
     | PRDone ok ctx' b' =>
-        let c1 := mkS ctx' b' (s_connected c) (s_shutdowns c) in
+        (* a failing processRequestLine leaves request_.method_ assigned when setMethod had succeeded *)
+        let dirty' := if ok then s_dirty c else s_dirty c || sets_method (s_buf c) in
+        let c1 := mkS ctx' b' (s_connected c) (s_shutdowns c) dirty' false in
         (* if (!context->parseRequest(buf, receiveTime)) { send 400; shutdown } *)
         let ev1 := if ok then [] else [do_send c1 s_400] in
         let c2 := if ok then c1 else do_shutdown c1 in
@@ -187,12 +218,12 @@ Section Server.
           let resp := callback req (wants_close req) in
           let ev2 := [SRequest req; do_send c2 (response_bytes resp)] in
           let c3 := if rs_close resp then do_shutdown c2 else c2 in
-          (ev1 ++ ev2, mkS ctx0 (s_buf c3) (s_connected c3) (s_shutdowns c3))
+          (ev1 ++ ev2, mkS ctx0 (s_buf c3) (s_connected c3) (s_shutdowns c3) false false)
         else (ev1, c2)
     end.
 
   Definition srv_deliver (c : sconn) (chunk : list byte) : list sevent * sconn :=
-    srv_onMessage (mkS (s_ctx c) (s_buf c ++ chunk) (s_connected c) (s_shutdowns c)).
+    srv_onMessage (mkS (s_ctx c) (s_buf c ++ chunk) (s_connected c) (s_shutdowns c) (s_dirty c) (s_aborted c)).
 
   Fixpoint srv_deliver_all (c : sconn) (chunks : list (list byte)) : list (list sevent) * sconn :=
     match chunks with
@@ -201,7 +232,7 @@ Section Server.
                     let (es, c2) := srv_deliver_all c1 rest in (e1 :: es, c2)
     end.
 
-  Definition sconn0 : sconn := mkS ctx0 [] true 0.
+  Definition sconn0 : sconn := mkS ctx0 [] true 0 false false.
 
   (* the requests handed to the callback, in order *)
   Definition requests_of (es : list sevent) : list request :=
